@@ -80,9 +80,11 @@ class BaseSection(base.Sectionable):
             print(exc)
             self._id = str(uuid.uuid4())
 
-        # Use id if no name was provided.
+        # Use id if no name was provided. A name is always text.
         if not name:
             name = self._id
+        elif not isinstance(name, str):
+            name = str(name)
 
         self._parent = None
         self._name = name
@@ -178,6 +180,10 @@ class BaseSection(base.Sectionable):
         if not new_value:
             self._name = self._id
             return
+
+        # A name is always text.
+        if not isinstance(new_value, str):
+            new_value = str(new_value)
 
         curr_parent = self.parent
         if hasattr(curr_parent, "sections") and new_value in curr_parent.sections:
